@@ -202,6 +202,13 @@ where
     }
 }
 
+#[cfg(bma400_verif)]
+impl OrientChgConfig {
+    pub(crate) fn verif_regs(&self) -> [(u8, u8); 9] {
+        verif_regs!(self; orientch_config0, orientch_config1, orientch_config3, orientch_config4, orientch_config5, orientch_config6, orientch_config7, orientch_config8, orientch_config9)
+    }
+}
+
 #[cfg(test)]
 mod tests {
     use super::*;
